@@ -126,11 +126,14 @@ mut("c16-fragment-start-lost", "C16", "Path.reverse clears the start of any lead
             prepoint = self._segments[0].start
             self._segments[0].start = None''')
 mut("c16-moveless-not-reanchored", "C16", "whole-path reverse no longer gives a move-less subpath its own move",
-'''                if len(p) != 0 or isinstance(subpath[-1], Close):
+'''                if len(p) != 0 or isinstance(subpath[-1], Close) or complete:
                     p.append(Move(end=subpath[0].start))''',
 '''                if False:
                     p.append(Move(end=subpath[0].start))''')
 
+mut("c16-leading-move-dropped", "C16", "a complete path whose last subpath has no move of its own reverses to a path without a leading move (the pinned tree's defect)",
+'''                if len(p) != 0 or isinstance(subpath[-1], Close) or complete:''',
+'''                if len(p) != 0 or isinstance(subpath[-1], Close):''')
 mut("c16-length-cache-kept", "C16", "a reversal through a subpath view keeps the backing path's cached per-segment lengths (the pinned tree's defect)",
 '''        # The cached lengths of the backing path are in the old order.
         self._path._length = None
@@ -450,9 +453,26 @@ mut("c20-viewport-inverse-wrong-side", "C20", "the inverse viewport transform is
             t = viewport_transform * t''')
 mut("c20-rect-ry-from-rx", "C20", "the writer states a rect's ry from rx",
 '''        restate(xml_tree, SVG_ATTR_RADIUS_Y, node.ry)
-        restate(xml_tree, SVG_ATTR_WIDTH, node.width)''',
+        restate_size(xml_tree, SVG_ATTR_WIDTH, node.width)''',
 '''        restate(xml_tree, SVG_ATTR_RADIUS_Y, node.rx)
-        restate(xml_tree, SVG_ATTR_WIDTH, node.width)''')
+        restate_size(xml_tree, SVG_ATTR_WIDTH, node.width)''')
+mut("c20-stale-id-kept", "C20", "an id cleared on the object leaves the source's id in the written text (the pinned tree's defect)",
+'''            xml_tree.set(SVG_ATTR_ID, str(node.id))
+        else:
+            xml_tree.attrib.pop(SVG_ATTR_ID, None)''',
+'''            xml_tree.set(SVG_ATTR_ID, str(node.id))''')
+mut("c20-stale-viewbox-kept", "C20", "a viewBox cleared on the svg object is still written from the source text (the pinned tree's defect)",
+'''        restate(xml_tree, SVG_ATTR_VIEWBOX, node.viewbox)''',
+'''        if node.viewbox:
+            xml_tree.set(SVG_ATTR_VIEWBOX, str(node.viewbox))''')
+mut("c20-group-opacity-copied", "C20", "a group's fill-opacity is copied onto the written g and inherited by opaque children (the pinned tree's defect)",
+'''                SVG_ATTR_FILL_OPACITY,
+                SVG_ATTR_STROKE_OPACITY,
+                SVG_TAG_STYLE,''',
+'''                SVG_TAG_STYLE,''')
+mut("c20-zero-radius-omitted", "C20", "a circle's radius of zero is left out and read back as the default radius (the pinned tree's defect)",
+'''        restate_size(xml_tree, SVG_ATTR_RADIUS, node.rx)''',
+'''        restate(xml_tree, SVG_ATTR_RADIUS, node.rx)''')
 mut("c20-stroke-opacity-as-fill-opacity", "C20", "the stroke's alpha is written as fill-opacity",
 '''                xml_tree.set(SVG_ATTR_STROKE_OPACITY, str(stroke_opacity))''',
 '''                xml_tree.set(SVG_ATTR_FILL_OPACITY, str(stroke_opacity))''')
